@@ -613,9 +613,11 @@ def obligations(tier):
     q = tier == 'quick'
     var = ['RP66V1.core.pRepCode.IDENT/UNITS/ASCII/OBNAME/OBJREF/DTIME/_pascal_string/UVARI/USHORT/UNORM', 'pRepCode.IDENT_len/OBNAME_len/ORIGIN_len', 'pFile.LogicalData.read/chunk/remain']
     obs += [
-        Ob('rp66_IDENT_UNITS_symbolic_bytes', 'ch', 'every byte string of length <= 5', var, harness='C07_rp66var', func='ident_units', timeout=150 if q else 900),
-        Ob('rp66_ASCII_symbolic_bytes', 'ch', 'every byte string of length <= 6', var, harness='C07_rp66var', func='ascii_code', timeout=150 if q else 900),
-        Ob('rp66_OBNAME_OBJREF_symbolic_bytes', 'ch', 'every byte string of length <= 7', var, harness='C07_rp66var', func='obname_objref', timeout=200 if q else 1500),
-        Ob('rp66_DTIME_symbolic_bytes', 'ch', 'every byte string of length <= 9', var, harness='C07_rp66var', func='dtime', timeout=150 if q else 900),
+        Ob('rp66_IDENT_symbolic_bytes', 'ch', 'every byte string of length <= %d' % (8 if q else 10), var, harness='C07_rp66var', func='ident_code', timeout=150 if q else 900, parts=9 if q else 11),
+        Ob('rp66_UNITS_bytes', 'ch', 'every length byte 0..255 x 0..3 content bytes from a 5-letter alphabet (allowed, not allowed, NUL, 0xff, space), 0..4 bytes available', var,
+           harness='C07_rp66var', func='units_code', timeout=150 if q else 900, parts=5),
+        Ob('rp66_ASCII_symbolic_bytes', 'ch', 'every byte string of length <= %d (1-, 2- and 4-byte UVARI length prefixes)' % (8 if q else 10), var, harness='C07_rp66var', func='ascii_code', timeout=150 if q else 900, parts=9 if q else 11),
+        Ob('rp66_OBNAME_OBJREF_symbolic_bytes', 'ch', 'every byte string of length <= %d' % (6 if q else 9), var, harness='C07_rp66var', func='obname_objref', timeout=200 if q else 1500, parts=7 if q else 10),
+        Ob('rp66_DTIME_symbolic_bytes', 'ch', 'every byte string of length <= 9', var, harness='C07_rp66var', func='dtime', timeout=150 if q else 900, parts=10),
     ]
     return obs
